@@ -16,6 +16,7 @@ import (
 
 	quic "github.com/refraction-networking/uquic"
 	"github.com/refraction-networking/uquic/verif/sim"
+	"github.com/refraction-networking/uquic/verif/specgen"
 	"github.com/refraction-networking/uquic/verif/vf"
 )
 
@@ -99,6 +100,7 @@ type result struct {
 	lnB                  *quic.Listener
 	serverTLS            func() *tls.Config
 	tap                  *tapState
+	advIdle              map[string]advIdle
 	unreleasable         bool
 	forgeAfterKeyUpdate  bool
 	causeDone            chan struct{} // closed when doCause has finished (edge phase: it runs in the Dial / Accept goroutine)
@@ -193,6 +195,48 @@ func streamLimits(c *Case, opener string) (bidiLimit, uniLimit int64, nb, nu int
 		uniLimit = int64(max(1, nu))
 	}
 	return
+}
+
+type advIdle struct {
+	ms      uint64
+	present bool
+	seen    bool // the side's transport parameters were found on the wire
+}
+
+// effMs is the idle period endpoint e applies, computed from its own Config and what its peer put on the wire:
+// min(own, max(5 s, peer's)) - connection.go applyTransportParameters with the 5 s floor of
+// wire/transport_parameters.go - or the own value alone when the peer sent no max_idle_timeout or 0 (RFC 9000 18.2).
+func (r *result) effMs(e string) int {
+	own, p := r.c.C.IdleMs, "s"
+	if e == "s" {
+		own, p = r.c.S.IdleMs, "c"
+	}
+	a := r.advIdle[p]
+	if !a.seen {
+		return r.c.effIdle(e)
+	}
+	if !a.present || a.ms == 0 {
+		return own
+	}
+	return min(own, int(max(a.ms, 5000)))
+}
+
+// clientSpec builds the QUICSpec of a spec-driven client: Chrome 115's ClientHello and Initial framing, with a
+// transport parameter list that advertises exactly what config("c") would (the connection enforces what the spec
+// advertises: u_connection.go applyAdvertisedTransportParameters) - except for max_idle_timeout.
+func (r *result) clientSpec() (*quic.QUICSpec, error) {
+	c := &r.c
+	bl, ul, _, _ := streamLimits(c, "s")
+	cid := c.C.CIDLen
+	tps := []specgen.TPDesc{
+		{K: "maxdata", N: 4 * streamWindow}, {K: "bidi_local", N: streamWindow}, {K: "bidi_remote", N: streamWindow}, {K: "uni", N: streamWindow},
+		{K: "streams_bidi", N: uint64(bl)}, {K: "streams_uni", N: uint64(ul)}, {K: "ack_delay", N: 26}, {K: "udp", N: 1452},
+		{K: "cidlimit", N: 4}, {K: "disable_migration"}, {K: "iscid"}, {K: "dgram", N: 16383},
+	}
+	if c.ClientSpec == "idle0" {
+		tps = append(tps[:3:3], append([]specgen.TPDesc{{K: "idle", N: 0}}, tps[3:]...)...)
+	}
+	return specgen.Desc{Base: "chrome115", SrcCID: &cid, TPs: tps}.Build()
 }
 
 func (r *result) config(me string) *quic.Config {
@@ -658,6 +702,14 @@ func runCase(c Case, res *result) {
 		res.finalNow = w.Router.Now()
 		w.Close()
 		res.log = w.Router.Trace(1 << 30)
+		// what each side really advertised as max_idle_timeout, read from the wire
+		res.advIdle = map[string]advIdle{}
+		for _, side := range []string{"c", "s"} {
+			if ps, ok := w.TransportParams(side == "c"); ok {
+				v, present := sim.TPValue(ps, 0x01)
+				res.advIdle[side] = advIdle{ms: v, present: present, seen: true}
+			}
+		}
 		if res.forgeRec == -2 {
 			res.forgeRec = -1
 			for i, rec := range res.log {
@@ -694,7 +746,18 @@ func runCase(c Case, res *result) {
 	defer dialCancel(nil)
 	res.dialStart = w.Router.Now()
 	dialRec := res.call(&wg, res.C, "Dial", func() (int, error) {
-		conn, err := trC.Dial(dialCtx, sim.ServerAddr, sim.ClientTLS(w.ClientKeys, alpn(&c, true)...), res.config("c"))
+		var conn *quic.Conn
+		var err error
+		if c.ClientSpec != "" {
+			spec, serr := res.clientSpec()
+			if serr != nil {
+				err = serr
+			} else {
+				conn, err = (&quic.UTransport{Transport: trC, QUICSpec: spec}).Dial(dialCtx, sim.ServerAddr, sim.ClientTLS(w.ClientKeys, alpn(&c, true)...), res.config("c"))
+			}
+		} else {
+			conn, err = trC.Dial(dialCtx, sim.ServerAddr, sim.ClientTLS(w.ClientKeys, alpn(&c, true)...), res.config("c"))
+		}
 		res.C.mu.Lock()
 		res.dialErr, res.dialAt, res.dialDone = err, w.Router.Now(), true
 		res.C.mu.Unlock()
